@@ -21,7 +21,7 @@ import (
 )
 
 type Case struct {
-	Kind   string     // "lexer" or "parser" or "rows"
+	Kind   string     // "lexer" or "parser" or "rows" or "det" (determinize_test.go)
 	S      *lexm.Spec `json:",omitempty"`
 	G      *cfgm.G    `json:",omitempty"`
 	Rows   [][]int32  `json:",omitempty"`
@@ -493,6 +493,7 @@ func TestC10(t *testing.T) {
 		"Lexer semantics over ALL strings per spec: breadth-first exploration of the product (decoded table state x derivative automaton of the mode's rules) over the alphabet partition induced by all range endpoints of both sides; in every product state: transition exists <=> some derivative is non-empty, actions present <=> some derivative nullable, and they are the earliest such rule's actions (push index by sorted mode name, token constant from base.gen.go), no flag bits; capped at 20000 product states per mode (skips counted). " +
 		"Parser: _rules/_termCounts/_actions/_goto equal, state by state, the automaton constructed in-process from the same text. " +
 		"Encoder round-trip (hook, tag verif): arbitrary row sets (duplicates, prefixes, extensions, empty rows, values around varint width changes, MaxInt32/MinInt32, thousands of rows) decode to themselves and share storage only when equal. " +
+		"Determinisation differential (in-process, all accepted specifications incl. non-greedy repetitions and rules matching the empty string): lox's finished DFA of every mode walked in lock step with the harness's own subset construction over lox's NFA (no state merging, no range merging): same set of accepting NFA states, same non-greedy-accepting flag, transitions for the same code points; nothing is compared behind a non-greedy accepting state. " +
 		"non-trivial = spec whose tables have >=8 states and (lexer) >=1 shared row; row set with >=2 equal rows"
 	run.Assumptions = []string{"derivative automaton of lib/lexm is the meaning of a mode's rules", "the in-process automaton is 'what the tables were built from' (its own correctness is C04's subject)"}
 	report := func(c *Case, d string) {
@@ -500,6 +501,14 @@ func TestC10(t *testing.T) {
 		run.Violation(d, c)
 	}
 	one := func(c *Case) {
+		if c.Kind == "det" {
+			d, text := evalDet(run, c.S, true)
+			c.Lox = text
+			if d != "" {
+				report(c, d)
+			}
+			return
+		}
 		if c.Kind == "rows" {
 			if d := checkRows(c.Rows); d != "" {
 				report(c, d)
@@ -562,6 +571,28 @@ func TestC10(t *testing.T) {
 			report(c, f.Msg)
 			return
 		}
+	}
+	// determinisation differential (in-process): every kind of accepted specification
+	fd := run.Check("det", run.N(3000, 50000), 8, func(rt *rapid.T, fail ev.FailFunc) {
+		o := lexgen.Opts{MaxModes: 2, ModeActs: true, Frags: true, Macros: true, ShuffleAct: true, MaxRules: 6, RepeatPop: true,
+			NonGreedy: rapid.IntRange(0, 2).Draw(rt, "ng") != 0, Nullable: rapid.IntRange(0, 3).Draw(rt, "nullable") == 0}
+		c := &Case{Kind: "det", S: lexgen.GenSpec(rt, o)}
+		if o.NonGreedy {
+			run.Class("det:specs-with-non-greedy-repetitions-allowed")
+		}
+		d, text := evalDet(run, c.S, true)
+		c.Lox = text
+		if d != "" {
+			fail(c, "%s", d)
+		}
+	})
+	if fd != nil {
+		c, _ := fd.Case.(*Case)
+		if c == nil {
+			run.HarnessError("rapid failure without a case: %s\n%s", fd.Msg, fd.Log)
+		}
+		report(c, fd.Msg)
+		return
 	}
 	n := run.N(1600, 25000)
 	const batch = 400
